@@ -222,7 +222,7 @@ def check_loops(rep, runs):
                       L.func, L.node, "data-driven loop can iterate without consuming input: %s - a crafted length/count field makes "
                       "decoding hang" % why, node=L.node)
     rep.count("data-driven loops", n)
-    rep.floor("data-driven loops checked", n, 8)
+    rep.floor("data-driven loops checked", n, 5)
 
 
 def ast_len_progress(node):
